@@ -416,57 +416,43 @@ func (s *Solver) Solve(q *Query, timeoutSec int, wantModel bool) (*SolveResult, 
 	return r, true
 }
 
-// parseModel parses ((|a| #x01) (|b| true) ...) into name -> value.
+// parseModel parses ((|a| #x01) (b true) ...) into name -> value (symbols may or may not be quoted).
 func parseModel(s string) map[string]uint64 {
 	m := map[string]uint64{}
-	i := 0
-	n := len(s)
-	for i < n {
-		// find "(|" or "(name "
-		j := strings.Index(s[i:], "(|")
-		if j < 0 {
-			break
-		}
-		i += j + 2
-		k := strings.Index(s[i:], "|")
-		if k < 0 {
-			break
-		}
-		name := s[i : i+k]
-		i += k + 1
-		for i < n && (s[i] == ' ' || s[i] == '\n') {
-			i++
-		}
-		e := i
-		depth := 0
-		for e < n {
-			if s[e] == '(' {
-				depth++
-			} else if s[e] == ')' {
-				if depth == 0 {
-					break
-				}
-				depth--
+	depth := 0
+	start := -1
+	for i := 0; i < len(s); i++ {
+		switch s[i] {
+		case '|':
+			// skip quoted symbol
+			j := strings.IndexByte(s[i+1:], '|')
+			if j < 0 {
+				return m
 			}
-			e++
-		}
-		val := strings.TrimSpace(s[i:e])
-		i = e
-		switch {
-		case val == "true":
-			m[name] = 1
-		case val == "false":
-			m[name] = 0
-		case strings.HasPrefix(val, "#x"):
-			u, _ := strconv.ParseUint(val[2:], 16, 64)
-			m[name] = u
-		case strings.HasPrefix(val, "#b"):
-			u, _ := strconv.ParseUint(val[2:], 2, 64)
-			m[name] = u
-		case strings.HasPrefix(val, "(_ bv"):
-			f := strings.Fields(val[5:])
-			u, _ := strconv.ParseUint(f[0], 10, 64)
-			m[name] = u
+			i += j + 1
+		case '(':
+			depth++
+			if depth == 2 {
+				start = i
+			}
+		case ')':
+			if depth == 2 && start >= 0 {
+				pair := strings.TrimSpace(s[start+1 : i])
+				var name string
+				if strings.HasPrefix(pair, "|") {
+					k := strings.IndexByte(pair[1:], '|')
+					if k >= 0 {
+						name = pair[1 : 1+k]
+					}
+				} else if k := strings.IndexAny(pair, " \n\t"); k > 0 {
+					name = pair[:k]
+				}
+				if name != "" {
+					m[name] = lastValue(pair)
+				}
+				start = -1
+			}
+			depth--
 		}
 	}
 	return m
